@@ -87,7 +87,17 @@ def _check_molecules(molecules):
     """
     # check if molecules are all connected
     for molecule in molecules:
-        if not nx.is_connected(molecule):
+        # besides the residues also all atoms need to be connected, where
+        # atoms count as connected by bonds, constraints and virtual-sites
+        atom_graph = nx.Graph()
+        atom_graph.add_nodes_from(molecule.molecule.nodes)
+        atom_graph.add_edges_from(molecule.molecule.edges)
+        for inter_type in ["virtual_sitesn", "virtual_sites2",
+                           "virtual_sites3", "virtual_sites4"]:
+            for interaction in molecule.molecule.interactions.get(inter_type, []):
+                atom_graph.add_edges_from((interaction.atoms[0], atom)
+                                          for atom in interaction.atoms[1:])
+        if not nx.is_connected(molecule) or not nx.is_connected(atom_graph):
             msg = ('\n Molecule {} consistes of two disconnected parts. '
                    'Make sure all atoms/particles in a molecule are '
                    'connected by bonds, constraints or virual-sites')
